@@ -242,6 +242,29 @@ def extra_designs():
         return T
     yield ("det/history/opaque-parameter-values", opaque_params)
 
+    def imported_cells():
+        # "load a package, use what it declares": the design under test is what from_proto makes of a package declaring a cell
+        # that packages imported earlier in the process may have declared differently
+        E = h.ExternalModule(name="ImpCell", port_list=[h.Inout(name="a"), h.Inout(name="x"), h.Inout(name="vss")], desc="", domain="c12imp")
+        m = h.Module(name="ImpUser")
+        m.p, m.q, m.g = h.Signal(), h.Signal(), h.Signal()
+        m.u1 = E()(a=m.p, x=m.q, vss=m.g)
+        m.u2 = E()(a=m.q, x=m.p, vss=m.g)
+        pkg = h.to_proto(m)
+        ns = h.from_proto(pkg)
+        import types
+
+        def find(n_):
+            for v in vars(n_).values():
+                if isinstance(v, h.Module) and v.name == "ImpUser":
+                    return v
+                if isinstance(v, types.SimpleNamespace):
+                    r = find(v)
+                    if r is not None:
+                        return r
+        return find(ns)
+    yield ("det/history/imported-cells", imported_cells)
+
     def set_valued_params():
         # generator parameters holding sets (no order of their own): the generated names must not follow iteration order
         from typing import FrozenSet
@@ -425,6 +448,30 @@ def unrelated_work(rnd, rounds):
         m = h.Module()
         m.a = h.Port()
         return m
+    # earlier work that IMPORTS packages declaring cells of the same (domain, name) as the design's, with the same port names
+    # in another order / other directions and widths
+    try:
+        import vlsir.circuit_pb2 as vckt
+        for variant in range(min(rounds, 2)):
+            jp = vckt.Package(domain="junkimport")
+            em = jp.ext_modules.add()
+            em.name.domain, em.name.name = "c12imp", "ImpCell"
+            order = ["vss", "x", "a"] if variant == 0 else ["x", "a", "vss"]
+            for n_ in order:
+                em.signals.add(name=n_, width=1)
+                em.ports.add(signal=n_, direction=vckt.Port.Direction.INPUT if variant else vckt.Port.Direction.NONE)
+            jm = jp.modules.add(name="junkimport.User")
+            for n_ in order:
+                jm.signals.add(name=n_, width=1)
+            ji = jm.instances.add(name="u")
+            ji.module.external.domain, ji.module.external.name = "c12imp", "ImpCell"
+            for n_ in order:
+                c_ = ji.connections.add(portname=n_)
+                c_.target.sig = n_
+            ns_ = h.from_proto(jp)
+            h.to_proto(ns_.junkimport.User)
+    except Exception:
+        pass
     # the library's bundle-ported cells are first touched by an attempt that FAILS; in every second process that is all the
     # earlier work they see (in the others a successful export follows)
     for rd in range(min(rounds, 2)):
